@@ -42,9 +42,16 @@ def u_query_terminal(ctx):
         return [(None, s)]
 
     def read_tty(e, s, a, k):
-        # contract of read_tty (unit below): attributes as on entry at every exit, may raise
+        # contract of read_tty (unit below): attributes as on entry when it returns.  When it is left by an exception they are as on
+        # entry too -- unless the signal arrived inside read_tty's own `finally` clause, which read_tty's guarantee excludes but which is
+        # NOT query_terminal's own clean-up: then the attributes are whatever read_tty had set (arbitrary), and query_terminal's
+        # `finally` is what puts them back
         fault(e, s)
         e.raise_(ExcVal("Exception"), e.fork(s), fault=True)     # the caller's predicate raised
+        for exc in ("KeyboardInterrupt", "OSError"):
+            s2 = e.fork(s)
+            tty.tty_init(s2, tag=f"left_by_read_tty_{exc}")
+            e.raise_(ExcVal(exc), s2, fault=True)
         return [(Opaque("response"), s)]
     eng.genv.update(write_tty=Fn(write_tty), read_tty=Fn(read_tty))
     st.env.update(request=Opaque("request"), more=Opaque("more"), timeout=None)
